@@ -162,7 +162,12 @@ def reference_sites(data):
 
 def negative(ctx, case, gt, sp):
     rnd = case.rnd
-    DE = gt.util.DeserializationError
+    def is_de(e):
+        # by name through the MRO, so the check does not depend on where the
+        # library defines the class
+        return any(c.__name__ == "DeserializationError"
+                   for c in type(e).__mro__)
+
     kinds = gspec.kinds(sp)
     by_kind = {}
     for u, k in kinds.items():
@@ -197,13 +202,13 @@ def negative(ctx, case, gt, sp):
         case.ops = [{"spec": sp, "fault": shape, "site": idx, "new": new}]
         try:
             irio.load(gt, raw)
-        except DE:
-            ctx.count("negative:rejected")
-            done += 1
-            continue
         except Exception as e:
             if type(e).__name__ == "OpTimeout":
                 raise
+            if is_de(e):
+                ctx.count("negative:rejected")
+                done += 1
+                continue
             raise Discrepancy(
                 "C09", "negative-wrong-exception:%s:%s" % (
                     shape, type(e).__name__),
